@@ -81,6 +81,44 @@ def merge_by_hyp(obls, prefix, timeout_ms, portfolio=True, cache=True):
     return jobs
 
 
+def solve_inline(obls, facts, timeout_ms, done, backend, keep_sat):
+    """incremental discharge: one solver per distinct hypothesis list, push/pop per goal. Fills `done`
+    {obligation index: result dict} for valid goals (and for refuted ones when keep_sat)."""
+    groups = {}
+    order = []
+    for n_, o in enumerate(obls):
+        if n_ in done:
+            continue
+        key = tuple(h.get_id() if is_z3(h) else id(h) for h in o.hyp)
+        if key not in groups:
+            groups[key] = (o.hyp, [])
+            order.append(key)
+        groups[key][1].append((n_, o))
+    for key in order:
+        hyp, items = groups[key]
+        hyps = list(hyp) + list(facts)
+        for n_, o in items:
+            g = o.goal
+            if g is True or (is_z3(g) and z3.is_true(g)):
+                done[n_] = dict(result='unsat', time=0.0, backend='syntactic', cached=False, model=None, reason=None)
+                continue
+            if g is False:
+                g = z3.BoolVal(False)
+            s = z3.Solver()          # fresh solver per goal: the non-incremental core is much faster on QF_NRA
+            s.set('timeout', int(timeout_ms))
+            for h in hyps:
+                s.add(h)
+            s.add(z3.Not(g))
+            t = time.time()
+            r = str(s.check())
+            dt = time.time() - t
+            if r == 'unsat':
+                done[n_] = dict(result='unsat', time=dt, backend=backend, cached=False, model=None, reason=None)
+            elif r == 'sat' and keep_sat:
+                done[n_] = dict(result='sat', time=dt, backend=backend, cached=False, model=solve._model_dict(s.model()),
+                                reason=None, smt=s.to_smt2())
+
+
 class KernelGroup(Group):
     """one function under one contract"""
 
@@ -92,6 +130,7 @@ class KernelGroup(Group):
         self.sizes = dict(quick=list(sizes_quick), thorough=list(sizes_thorough))
         self.bound_text = bound_text
         self.timeout_ms = timeout_ms
+        self.inline_timeout_ms = 5000
         self.functions = [(contract.rel, contract.func, contract.cls)]
         self.assumptions = tuple(assumptions)
 
@@ -105,14 +144,36 @@ class KernelGroup(Group):
         c = self.contract
         c.known = tuple(known)
         t = time.time()
-        obls, stats = harness.function_obligations(c, mode, size)
         prefix = "%s%s" % (self.name, '' if size is None else str(tuple(size)).replace(' ', ''))
         if mode == 'P':
+            obls, stats = harness.function_obligations(c, mode, size)
             jobs = harness.jobs_from(obls, prefix, timeout_ms=self.timeout_ms)
             for j in jobs:
                 j['subgoals'] = [j['name'].split(':', 1)[1]]
         else:
-            jobs = merge_by_hyp(obls, prefix, self.timeout_ms)
+            # bounded mode: quantifier-free goals, solved incrementally right here (one solver per path, push/pop
+            # per goal).  First pass with opaque spec helpers where the contract offers them (sound weakening);
+            # what stays open is re-solved with the full definitions, and what is still open after that is
+            # exported as a job for the portfolio.
+            done = {}
+            if getattr(c, 'opaque', None) is not None:
+                c.opaque(True)
+                try:
+                    obls, stats = harness.function_obligations(c, mode, size)
+                    solve_inline(obls, c.extra_facts(), 4000, done, 'z3-5.1(py)+opaque-spec', keep_sat=False)
+                finally:
+                    c.opaque(False)
+            obls, stats = harness.function_obligations(c, mode, size)
+            open_ = solve_inline(obls, [], self.inline_timeout_ms, done, 'z3-5.1(py)', keep_sat=True)
+            jobs = []
+            for n_, o in enumerate(obls):
+                nm = "%s:%s#%d" % (prefix, o.name, n_)
+                if n_ in done:
+                    jobs.append(dict(name=nm, subgoals=[nm.split(':', 1)[1]], presolved=done[n_], kinds=[o.kind]))
+            rest = [o for n_, o in enumerate(obls) if n_ not in done]
+            if rest:
+                more = merge_by_hyp(rest, prefix + '.open', self.timeout_ms)
+                jobs.extend(more)
         for j in jobs:
             j['group'] = self.name
             j['task'] = task
